@@ -491,6 +491,11 @@ class C07(Property):
                               intersections=False, stop_lines=False, overlap=rng.chance(0.5), types=False, far=0.3,
                               lattice=lattice)
         net.pop("_geom", None)
+        if rng.chance(0.2):
+            # two lanelets with different ids and coincident geometry (e.g. a tram lanelet lying on a road lanelet)
+            src = rng.pick(net["lanelets"])
+            net["lanelets"].append({"id": ids.take(), "left": src["left"], "center": src["center"],
+                                    "right": src["right"], "pred": [], "succ": []})
         obstacles = {}
         for j in range(rng.randint(1, 5)):
             role = rng.weighted(["static", "dynamic", "dynamic_nopred", "env", "phantom", "dynamic_set"],
